@@ -20,3 +20,33 @@ PROPS["C11"] = dict(
     explanation="contract-based deductive verification of der.py: each decoder's postcondition is "
                 "`input == spec_encoding(value) ++ rest`, each encoder's is `result == spec_encoding(args)`",
 )
+
+
+_UTIL_CODEC = ["ecdsa.util.orderlen", "ecdsa.util.number_to_string", "ecdsa.util.string_to_number",
+               "ecdsa.util.string_to_number_fixedlen", "ecdsa.util.sigencode_strings", "ecdsa.util.sigencode_string",
+               "ecdsa.util.sigencode_der", "ecdsa.util.sigdecode_string", "ecdsa.util.sigdecode_strings", "ecdsa.util.sigdecode_der"]
+_DER_FOR_SIG = ["ecdsa.der.encode_length", "ecdsa.der.read_length", "ecdsa.der.encode_integer", "ecdsa.der.remove_integer",
+                "ecdsa.der.encode_sequence", "ecdsa.der.remove_sequence"]
+
+PROPS["C12"] = dict(
+    level="proof",
+    functions=_UTIL_CODEC + _DER_FOR_SIG,
+    lemmas=["der.roundtrip_length", "der.roundtrip_integer", "der.roundtrip_sequence"],
+    bounded=[dict(function=q, role="CPython cross-check of a proved contract", bound="17 curve orders + structured orders x boundary r, s; structured byte strings")
+             for q in _UTIL_CODEC],
+    min_obligations=30,
+    trusted_base=["byte-string theory axioms of pyvc/sym.py (tested against CPython every run)", "X.690 spec encoders of spec/der.py"],
+    explanation="every encoder equals the spec encoding, every decoder accepts only `spec encoding of its result` (uniqueness), "
+                "round-trip lemmas give completeness; quantified over all orders n >= 2",
+)
+
+_CANON = ["ecdsa.util.sigencode_strings_canonize", "ecdsa.util.sigencode_string_canonize", "ecdsa.util.sigencode_der_canonize"]
+PROPS["C13"] = dict(
+    level="proof",
+    functions=_CANON + ["ecdsa.util.sigencode_strings", "ecdsa.util.sigencode_string", "ecdsa.util.sigencode_der", "ecdsa.util.number_to_string", "ecdsa.util.orderlen"],
+    lemmas=[],
+    bounded=[dict(function=q, role="CPython cross-check of a proved contract", bound="17 curve orders x s in {n//2-1..n//2+2, 1, n-1,..}") for q in _CANON],
+    min_obligations=8,
+    trusted_base=["byte-string theory axioms", "float model: a/b is the correctly rounded double of the exact quotient (error <= 2^-53 relative)"],
+    explanation="sigencode_*_canonize(r,s,n) == sigencode_*(r, min(s, n-s), n) for every n >= 2 and 1 <= s <= n-1",
+)
